@@ -17,6 +17,7 @@ C04_gen_seed_handling, C04_truthy_seed_counterexample, C04_unseeded_reset_fresh_
 import PrimaiteModel.Model.Isolation
 import PrimaiteModel.Gen.SharedState
 import PrimaiteModel.Gen.IsolationReset
+import PrimaiteModel.Gen.IsolationSinkFlags
 namespace Primaite.Isolation
 
 /-! ### relations -/
@@ -595,6 +596,36 @@ theorem C04_class_attr_counterexample : ¬ C04_ClassAttrSkeletonIsolated := by
   revert this
   decide
 
+/-! #### F-C04-r7-1 (fixed): a sink-only global whose readers can raise is not sink-only -/
+
+/-- the statement for log calls that dereference a logger under the process-wide flag alone -/
+def C04_SinkFlagSkeletonIsolated : Prop :=
+  ∀ (a : Nat) (evs : List Event) (p : Proc),
+    (∀ ev ∈ evs, ev.prog = constructProgSinkFlag ∨ ev.prog = resetProgSinkFlag ∨ ev.prog = stepProgSinkFlag) →
+    traj a (run evs p).2 = traj a (run (onlyOf a evs) p).2
+
+/-- such programs read a sink-only global outside `log`: they do not pass the discipline … -/
+theorem sinkFlagProgs_not_ok : progOK refClass constructProgSinkFlag = false ∧ progOK refClass resetProgSinkFlag = false
+    ∧ progOK refClass stepProgSinkFlag = false := by decide
+
+/-- instance 0 saves no logs (io settings 0), instance 1 does (io settings 1), no generator use anywhere -/
+def procIo : Proc := { inst := fun i => initInst 7 0 (if i = 0 then 0 else 1) 0, glob := fun _ => 0 }
+
+/-- … and the statement is REFUTED: environment 0 is built with saving off, environment 1 with saving on, then environment 0 steps: its
+log call finds the flag on and no logger (the raise marker is returned); alone it returns 0. This is why
+`C04_gen_sink_flag_uses_guarded` is an obligation. -/
+theorem C04_sink_flag_counterexample : ¬ C04_SinkFlagSkeletonIsolated := by
+  intro h
+  have := h 0 [⟨0, constructProgSinkFlag, 5⟩, ⟨1, constructProgSinkFlag, 5⟩, ⟨0, stepProgSinkFlag, 2⟩] procIo (by decide)
+  revert this
+  decide
+
+/-- the same two environments with the operations as the code has them now: instance 0 is unaffected -/
+theorem C04_skeleton_io_witness_isolated :
+    traj 0 (run [⟨0, constructProg, 5⟩, ⟨1, constructProg, 5⟩, ⟨0, stepProg, 2⟩, ⟨1, resetProg, 3⟩, ⟨0, resetProg, 4⟩, ⟨0, stepProg, 1⟩] procIo).2
+      = traj 0 (run (onlyOf 0 [⟨0, constructProg, 5⟩, ⟨1, constructProg, 5⟩, ⟨0, stepProg, 2⟩, ⟨1, resetProg, 3⟩, ⟨0, resetProg, 4⟩, ⟨0, stepProg, 1⟩]) procIo).2 := by
+  decide
+
 /-- F-11 still refutes the full statement -/
 theorem C04_skeleton_counterexample_rng : ¬ C04_FullSkeletonIsolated := by
   intro h
@@ -787,6 +818,22 @@ theorem C04_unseeded_reset_fresh_modulo_rng (acts : List Val) (i j : Inst) (G G'
   have h := reset_noseed_episode_match 0 i j G G' hm hG hN hR
   simp only [runSolo]
   rw [h.1, steps_rel acts _ _ _ _ h.2]
+
+/-- **The multi-agent environment.** Whatever seed argument `PrimaiteRayMARLEnv.reset` is given (none, 0, any integer): on a long-lived
+instance with an arbitrary past and on an instance built for that episode's scenario, the reset followed by any actions returns the same
+values PROVIDED both start from the same generator state - the class never seeds, so that proviso cannot be dropped
+(`C04_unseeded_reset_depends_on_rng`); everything else of the past is erased as for the single-agent environment. -/
+theorem C04_marl_reset_fresh_modulo_rng (s : Option Int) (acts : List Val) (i j : Inst) (G G' : Store)
+    (hm : EpisodeMatch i j) (hG : G gImport = G' gImport) (hN : G gNmne = G' gNmne) (hR : G gRng = G' gRng) :
+    ∃ op, marlResetCall s = some op ∧
+      runSolo (op :: acts.map fun a => (stepProg, a)) i G = runSolo (op :: acts.map fun a => (stepProg, a)) j G' := by
+  refine ⟨(resetProgNoSeed, 0), rfl, ?_⟩
+  have h := reset_noseed_episode_match 0 i j G G' hm hG hN hR
+  simp only [runSolo]
+  rw [h.1, steps_rel acts _ _ _ _ h.2]
+
+/-- the wrapper `PrimaiteRayEnv` IS the single-agent environment for every seed argument: all `reset` theorems apply to it -/
+theorem C04_ray_env_reset_is_gym_reset (s : Option Int) (gen : Bool) : rayEnvResetCall s gen = resetCall s gen := rfl
 
 /-- and the generator state does matter for an unseeded reset (by design; not claimed as a violation): same instance, generators 5 / 0 -/
 theorem C04_unseeded_reset_depends_on_rng :
@@ -988,6 +1035,36 @@ theorem C04_gen_globals_safe : C04_FullGenGlobalsSafe := by
 
 /-- stronger: no entry is even `rewrittenBeforeRead` — no process global carries scenario data from one operation's write to a read -/
 theorem C04_gen_no_readable_global : entries.filter readable = [] := by decide +kernel
+
+/-! the process-wide output flags: a log call must not be able to raise on their account -/
+
+open Primaite.Gen.IsolationSinkFlags in
+/-- dereferences of a conditionally created logger that are NOT guarded by the object's own state, reviewed: both are the error branch of
+`Node.connect_nic` / `disconnect_nic` (`self.sys_log.logger.warning(msg)` right before `raise NetworkError(msg)`): the operation raises in
+any case, the flag at build time decides the exception TYPE only; measured: connecting a connected NIC / disconnecting twice raise earlier
+(RuntimeWarning / KeyError) and never reach these branches. Node construction code, reached by no agent action. -/
+def sinkFlagDischarged : List (String × String) :=
+  [("simulator.network.hardware.base:Node.connect_nic", "self.sys_log.logger.warning"),
+   ("simulator.network.hardware.base:Node.disconnect_nic", "self.sys_log.logger.warning")]
+
+open Primaite.Gen.IsolationSinkFlags in
+/-- **A log call cannot raise on account of a process-wide output flag.** Every attribute that is CREATED under control of a test on
+`SIM_OUTPUT` (found: `SysLog.logger`, `PacketCapture.inbound_logger` / `outbound_logger`) (i) has an unconditional initial value, so that
+testing it cannot raise, and (ii) is dereferenced - anywhere in the package, through `self` or through a name that holds such an object
+- only after an assignment in the same block or under the guard `<it> is not None` (own state decides; the process-wide flag, which
+another environment may have written since, can only switch saving OFF), the two reviewed error branches aside. The extractor is not
+blind: the three attributes are found, and the five `SysLog` level methods and the two `PacketCapture.capture_*` methods are among the
+guarded uses. `SIM_OUTPUT` is the only sink global and it IS derived sink-only from the inventory. -/
+theorem C04_gen_sink_flag_uses_guarded :
+    sinkGlobals = ["SIM_OUTPUT"]
+    ∧ (entries.find? (fun e => e.name == "simulator:SIM_OUTPUT")).map derive = some GClass.sinkOnly
+    ∧ (condAttrUses.all fun u => u.2.2.2 != "UNGUARDED" || sinkFlagDischarged.contains (u.2.1, u.2.2.1)) = true
+    ∧ (condAttrInit.all fun i => i.2.2) = true
+    ∧ ([("SysLog", "logger"), ("PacketCapture", "inbound_logger"), ("PacketCapture", "outbound_logger")].all
+        fun ca => condAttrs.any fun c => c.1 == ca.1 && c.2.1 == ca.2) = true
+    ∧ ((["SysLog.debug", "SysLog.info", "SysLog.warning", "SysLog.error", "SysLog.critical", "PacketCapture.capture_inbound",
+          "PacketCapture.capture_outbound"].all
+        fun f => condAttrUses.any fun u => u.2.1.endsWith f && u.2.2.2 == "guarded") = true) := by decide +kernel
 
 /-! the global random generators -/
 
@@ -1191,6 +1268,28 @@ theorem C04_gen_reset_shape :
     ∧ constantSchedulerReturns = "copy.deepcopy(self.config)"
     ∧ listSchedulerReturns = ["parsed_cfg"] ∧ listSchedulerParsedBy = "yaml.safe_load"
     ∧ listSchedulerAssigns = ["_exceeded_episode_list"] := by decide +kernel
+
+open Primaite.Gen.IsolationReset in
+/-- The other two environment classes. `PrimaiteRayMARLEnv`: `reset` and `__init__` build the game from nothing but the scheduler and the
+episode counter (same expression as the single-agent environment), `reset` (re)binds only the counter and the game, no other method assigns
+an attribute of the environment, the agents are looked up in the CURRENT game on every use (one statement), and NO call in the class seeds
+a generator or is handed a seed (so `marlResetCall` / `marlConstructCall` ignore their argument). `PrimaiteRayEnv`: binds a
+`PrimaiteGymEnv` once, assigns nothing afterwards and only delegates (`reset(seed=seed)`, `step(action)`, `close()`, `game`). -/
+theorem C04_gen_other_env_classes :
+    marlResetGameSource = "PrimaiteGame.from_config(self.episode_scheduler(self.episode_counter))"
+    ∧ marlInitGameSource = "PrimaiteGame.from_config(self.episode_scheduler(self.episode_counter))"
+    ∧ marlResetAssigns = ["episode_counter", "game"]
+    ∧ marlResetTopLevelTargets.contains "self.game" = true
+    ∧ marlLaterWrites = []
+    ∧ marlSeedCalls = []
+    ∧ marlAgentsStatements = 1
+    ∧ marlAgentsReturns = ["{name: self.game.rl_agents[name] for name in self._agent_ids}"]
+    ∧ rayEnvSource = ["PrimaiteGymEnv(env_config=env_config)"]
+    ∧ rayEnvLaterWrites = []
+    ∧ rayEnvResetCalls = ["self.env.reset(seed=seed)"]
+    ∧ rayEnvStepCalls = ["self.env.step(action)"]
+    ∧ rayEnvCloseCalls = ["self.env.close()"]
+    ∧ rayEnvGameReturns = ["self.env.game"] := by decide +kernel
 
 /-! ### tie: the seed handling of `reset` / `__init__` / `set_random_seed` -/
 
